@@ -1,5 +1,6 @@
 """C20 - distributed work ranges partition the index range exactly."""
 import ast
+import sys
 from qvh.core import *
 from qvh import extract as X
 
@@ -203,6 +204,71 @@ def run(ck):
             ck.fail("raises:block_distributed_%s" % kind, "helper raised %r" % (e,), {"api": kind, "size": size, "start_or_0": a, "stop_or_len": b})
     finally:
         cfg.size, cfg.rank, cfg.parallel_level, cfg.parallel_region = saved
+    # ---- DistributedConfiguration.allreduce / reduce themselves (their body, not a replacement) with a stand-in communicator: the
+    # accumulator of every simulated process holds the serial sum afterwards, whatever the memory layout of the caller's array ----
+    try:
+        import types as _types
+        from quantarhei.core import parallel as par_
+        had_mpi = sys.modules.get("mpi4py")
+        fake = _types.ModuleType("mpi4py"); fake.MPI = _types.SimpleNamespace(SUM="sum")
+        sys.modules["mpi4py"] = fake
+        saved_d2 = dict(cfg.__dict__)
+        try:
+            layouts = (("C-ordered", lambda sh: numpy.zeros(sh)), ("Fortran-ordered", lambda sh: numpy.zeros(sh, order="F")),
+                       ("transposed view", lambda sh: numpy.zeros(sh[::-1]).T), ("last-axis slice of a bigger array", lambda sh: numpy.zeros(sh + (3,))[..., 1]),
+                       ("first-axis slice", lambda sh: numpy.zeros((2,) + sh)[1]))
+            for P in (2, 3, 5):
+                for lname, mk in layouts:
+                    for sh in ((3, 4), (2, 3, 2, 3)):
+                        lo_, hi_ = ck.rng.randint(-3, 3), ck.rng.randint(4, 11)
+                        term = lambda i_: numpy.arange(int(numpy.prod(sh)), dtype=float).reshape(sh) * (i_ * i_ + 1.0) + i_
+                        serial = sum(term(i_) for i_ in range(lo_, hi_))
+                        inpL = {"processes": P, "layout": lname, "shape": list(sh), "range": [lo_, hi_]}
+                        ck.case(("allreduce", P, lname, sh), nontrivial=True, kind="allreduce-layout", api="allreduce", size=P)
+                        total = None
+                        ok_ = True
+                        for pas in (0, 1):
+                            seen = []
+                            for rank in range(P):
+                                class Comm:
+                                    def Allreduce(self_, A, B, op=None):
+                                        seen.append(numpy.array(A, dtype=float).copy())
+                                        B[...] = total if total is not None else A
+                                    def Reduce(self_, A, B, op=None, root=0):
+                                        seen.append(numpy.array(A, dtype=float).copy())
+                                        B[...] = total if total is not None else A
+                                cfg.have_mpi = True; cfg.size = P; cfg.rank = rank; cfg.parallel_level = 1; cfg.parallel_region = 1
+                                cfg.comm = Comm()
+                                acc = mk(sh)
+                                for i_ in par_.block_distributed_range(lo_, hi_):
+                                    acc += term(i_)
+                                try:
+                                    cfg.allreduce(acc)
+                                    red = cfg.reduce(mk(sh) + sum([term(i_) for i_ in par_.block_distributed_range(lo_, hi_)], numpy.zeros(sh)))
+                                except Exception as e:
+                                    ck.fail("raises:allreduce", "allreduce/reduce raised %r" % (e,), inpL); ok_ = False
+                                    break
+                                if pas == 1:
+                                    dv = float(numpy.abs(acc - serial).max())
+                                    dv2 = float(numpy.abs(numpy.asarray(red) - serial).max())
+                                    if dv > 1e-9 * float(numpy.abs(serial).max()):
+                                        ck.fail("reduce:allreduce:layout", "after allreduce the accumulator of process %d is not the serial sum" % rank,
+                                                dict(inpL, rank=rank), dv)
+                                    if dv2 > 1e-9 * float(numpy.abs(serial).max()):
+                                        ck.fail("reduce:reduce:layout", "the array returned by reduce on process %d is not the serial sum" % rank,
+                                                dict(inpL, rank=rank), dv2)
+                            if not ok_:
+                                break
+                            # two calls per process (allreduce, reduce): totals of the first kind
+                            total = sum(seen[0::2])
+        finally:
+            cfg.__dict__.clear(); cfg.__dict__.update(saved_d2)
+            if had_mpi is None:
+                sys.modules.pop("mpi4py", None)
+            else:
+                sys.modules["mpi4py"] = had_mpi
+    except Exception as e:
+        ck.fail("raises:allreduce-setup", "setting up the stand-in communicator raised %r" % (e,), {})
     # ---- the library's own distributed loops: every simulated process reproduces the serial result -----------------------
     # (mpi4py is absent: the processes are run one after the other; the buffers of the k-th reduction are collected in pass k
     # and handed to all processes in pass k+1, until no reduction is left open)
